@@ -398,6 +398,15 @@ def c08(res, rng, tier):
         for a in toks_z:
             for b in toks_z:
                 lines.append("dict S %s i:1 S %s i:2 L G %s G %s D %s L I" % (a, b, a, b, b))
+    # keys that are not equal to themselves (NaN, and Tuple / Call / Ref / complex holding one): every Set adds an entry
+    # nothing can find again, and Len and Iter still agree on how many there are
+    nan_keys = ["f:7ff8000000000001", "f:fff8000000000000", "t( f:7ff8000000000001 )", "t( i:1 f:7ff8000000000001 )",
+                "C( g:6d:43 t( f:7ff8000000000001 ) )", "R( f:7ff8000000000001 )", "x:7ff8000000000001,0000000000000000", "f32:7fc00000"]
+    for a in nan_keys:
+        lines.append("dict S %s i:1 L I G %s L I" % (a, a))
+        lines.append("dict S i:1 i:0 S %s i:1 S %s i:2 L I D %s L I S i:2 NIL L I" % (a, a, a))
+        for b_ in nan_keys[:4]:
+            lines.append("dict S %s i:1 S %s i:2 S s:61 i:3 L I D %s L I" % (a, b_, b_))
     known = [k for k in C.load_known_findings() if k.get("property") == "C08" and k.get("class") == KNOWN_C08]
     if known:
         lines.append("dict S s:61 i:1 S b:61 i:2 G z:61")       # the listed witness
